@@ -1129,6 +1129,70 @@ def pure_uri_cases(ctx, rng, n):
 
 
 # ------------------------------------------------------------------------------------------ run
+def real_supply(ctx, clock):
+    """The traces below replace the library's random supply (rndstr, secret) by a recorded one, under the assumption
+    that the real supply is fresh.  This part exercises the REAL generators and the unshimmed registration endpoint
+    with the clock standing still (everything happens within one second): secrets issued for the same client id, for
+    different client ids, in bursts and across re-registrations under the same id must all be different; so must the
+    registration access tokens and the client ids."""
+    import srv
+    import idpyoidc.server.oidc.registration as R
+    n = 40 if ctx.quick else 400
+    rec = {"flow": "real-supply"}
+    # the generators themselves
+    seen = {}
+    for sid in ["client_a", "client_a", "client_b", ""] + ["c%d" % (i % 3) for i in range(n)]:
+        for seed in ("seed-1", "seed-1", "seed-2"):
+            v = R.secret(seed, sid)
+            if v in seen:
+                ctx.violation("secret-not-fresh", "secret(%r, %r) repeats the value issued for %r within one second"
+                              % (seed, sid, seen[v]), rec)
+            seen[v] = (seed, sid)
+    ids = [R.random_client_id(reserved=[]) for _ in range(n)]
+    if len(set(ids)) != len(ids):
+        ctx.violation("client-id-not-fresh", "random_client_id repeats within %d draws" % n, rec)
+    ctx.count("real-supply:secret-calls", len(seen))
+    # the endpoint with nothing replaced: registrations and re-registrations under the same id in one burst
+    server = srv.make_server(extra={"capabilities": {"response_types_supported": RT_SUPPORTED}})
+    reg = server.get_endpoint("registration")
+    issued, tokens, cids = [], [], []
+    body = {"redirect_uris": ["https://rp.example.com/cb"], "response_types": ["code"]}
+    for i in range(6):
+        resp = reg.process_request(reg.parse_request(dict(body)))
+        ra = resp.get("response_args")
+        if ra is None:
+            continue
+        cids.append(ra["client_id"])
+        issued.append((ra["client_id"], ra.get("client_secret")))
+        tokens.append(ra.get("registration_access_token"))
+        for j in range(4 if ctx.quick else 12):      # the client registers anew under its id (rotation), same second
+            b2 = dict(body)
+            b2["client_id"] = ra["client_id"]
+            r2 = reg.process_request(reg.parse_request(b2), new_id=False)
+            a2 = r2.get("response_args")
+            if a2 is None:
+                ctx.count("real-supply:re-registration-refused")
+                continue
+            issued.append((a2["client_id"], a2.get("client_secret")))
+            tokens.append(a2.get("registration_access_token"))
+            stored = server.context.cdb[a2["client_id"]].get("client_secret")
+            if stored != a2.get("client_secret"):
+                ctx.violation("secret-echo-differs", "re-registration of %s: echoed secret is not the stored one" % a2["client_id"], rec)
+    secrets_ = [s for _, s in issued if s]
+    if len(set(secrets_)) != len(secrets_):
+        dup = sorted({s for s in secrets_ if secrets_.count(s) > 1})
+        ctx.violation("secret-not-fresh", "%d secrets issued within one second by the unshimmed endpoint, only %d distinct "
+                      "(registrations and re-registrations of %d clients); e.g. %r issued %d times"
+                      % (len(secrets_), len(set(secrets_)), len(cids), dup[0][:12] + "...", secrets_.count(dup[0])), rec)
+    toks = [t for t in tokens if t]
+    if len(set(toks)) != len(toks):
+        ctx.violation("registration-token-not-fresh", "registration access tokens repeat within one burst", rec)
+    if len(set(cids)) != len(cids):
+        ctx.violation("client-id-not-fresh", "client ids repeat within one burst", rec)
+    ctx.count("real-supply:secrets-issued", len(secrets_))
+    ctx.case_seen(rec, len(secrets_) > 6)
+
+
 def run(ctx):
     import logging
     import srv
@@ -1139,6 +1203,7 @@ def run(ctx):
     saved = (R.rndstr, R.secret)
     traces = []
     try:
+        real_supply(ctx, clock)
         # (a) the endpoint matrix, 25 registrations per provider
         cells = list(endpoint_matrix())
         for i in range(0, len(cells), 25):
